@@ -5,7 +5,7 @@ COQ_TARGET = "C09"
 TRUSTED = ["the exception class each Python primitive raises (int(), dict lookup, datetime.time, bytes.decode, unhexlify) is the "
            "modelled part (DESIGN.md appendix C); this run drives the real methods with every prefix of valid replies, random "
            "bytes and single-field corruptions to validate it"]
-ASSUMPTIONS = ["replies are at most 1024 bytes and arrive one per read"]
+ASSUMPTIONS = ["replies are at most 1024 bytes and arrive one per read", "arguments are inside every encoder's accepted domain: what happens to rejected arguments is C02's subject"]
 RULE = ("for each of the three state queries: empty reply, every prefix length of a valid reply, random replies of 1..1024 bytes and "
         "single-byte corruptions, at the login step and at the state step; every operation of both APIs with an empty login reply "
         "and with an empty command reply; non-trivial = distinct (operation, reply script) pairs with a truncated, empty or "
@@ -49,7 +49,7 @@ def run_stream(out, stream, cases):
 
 
 def with_replies(rnd, kind, replies):
-    c = world.rand_op_case(rnd, kind); c["replies"] = [r.hex() for r in replies]; return c
+    c = world.rand_op_case(rnd, kind, accepted_args=True); c["replies"] = [r.hex() for r in replies]; return c
 
 
 def cases(tier, rnd):
@@ -74,7 +74,7 @@ def cases(tier, rnd):
                 b = bytearray(valid); b[o:o + 4] = secs.to_bytes(4, "little"); cs.append(with_replies(rnd, kind, [login, bytes(b)]))
     for kind in range(1, 13):
         for _ in range(6 if tier == "quick" else 100):
-            c = world.rand_op_case(rnd, kind); r = [bytes.fromhex(x) for x in c["replies"]]
+            c = world.rand_op_case(rnd, kind, accepted_args=True); r = [bytes.fromhex(x) for x in c["replies"]]
             cs.append(with_replies(rnd, kind, [b""] + r[1:]) | {"args": c["args"]})
             for i in range(1, len(r)):
                 r2 = list(r); r2[i] = b""; cs.append(with_replies(rnd, kind, r2) | {"args": c["args"]})
@@ -100,7 +100,7 @@ def run(tier, rnd, out):
     corpus = lib.load_corpus("C09")
     if corpus: run_stream(out, "corpus", corpus)
     run_stream(out, "faulty-replies", cases(tier, rnd))
-    cs = oc.mixed_cases(rnd, 15 if tier == "quick" else 400, reply_mode="faulty")
+    cs = oc.mixed_cases(rnd, 15 if tier == "quick" else 400, reply_mode="faulty", accepted_args=True)
     run_stream(out, "random-faults", cs)
 
 
